@@ -512,6 +512,57 @@ func (g *Gen) pickConcurrent(k int) []int {
 			break
 		}
 	}
+	// one block in four is built around the registry: every member of a small session departs (by switching to a new
+	// session or to another live one) while outsiders join it by id, or several connections create sessions at once -
+	// the races C07 names: a join against the last departure, two last departures, two creations
+	if g.rnd.Intn(4) == 0 {
+		small := -1
+		for _, sid := range sortedKeys(g.w.know.sids) {
+			if n := len(bySession[sid]); n >= 1 && n <= k {
+				small = sid
+				if g.rnd.Intn(2) == 0 {
+					break
+				}
+			}
+		}
+		var chosen []int
+		plan := map[int]*wire.Req{}
+		if small >= 0 {
+			for _, c := range bySession[small] {
+				r := g.RequestOf(c, "join")
+				r.Target, r.TargetN = "new", 0
+				if others := sortedKeys(g.w.know.sids); len(others) > 1 && g.rnd.Intn(3) == 0 {
+					o := others[g.rnd.Intn(len(others))]
+					if o != small {
+						r.Target, r.TargetN = "id", uint32(o)
+					}
+				}
+				plan[c] = r
+				chosen = append(chosen, c)
+			}
+		}
+		for _, c := range live {
+			if len(chosen) >= k {
+				break
+			}
+			if _, ok := plan[c]; ok {
+				continue
+			}
+			r := g.RequestOf(c, "join")
+			if small >= 0 && g.rnd.Intn(4) > 0 {
+				r.Target, r.TargetN = "id", uint32(small)
+			} else {
+				r.Target, r.TargetN = "new", 0
+			}
+			plan[c] = r
+			chosen = append(chosen, c)
+		}
+		sortInts(chosen)
+		for _, c := range chosen {
+			g.w.Recv(c, plan[c])
+		}
+		return chosen
+	}
 	if target >= 0 && g.rnd.Intn(3) > 0 {
 		members := bySession[target]
 		var chosen []int
